@@ -2,4 +2,4 @@ From Coq Require Import ExtrOcamlBasic.
 From GS Require Import Num Loops C18_Model.
 Extraction "c18_model.ml" proto_anchor
   isclose normalize denormalize derivative normalize_raw denormalize_raw derivative_raw
-  norm_range denorm_range kernel_loglikelihood loglikelihood apply_field remove_field single_val_vec.
+  norm_range denorm_range kernel_loglikelihood loglikelihood apply_field remove_field single_val_vec fit_book.
